@@ -4,6 +4,7 @@
 P=$1; PATCH=$2; TIER=${3:-quick}; shift 3 2>/dev/null
 cd /repo && git diff --quiet || { echo "/repo not clean"; exit 2; }
 git -C /repo apply "$PATCH" || { echo "patch does not apply to /repo"; exit 2; }
+export VERIF_EVIDENCE_DIR=/tmp/mut/evidence-scratch   # not evidence about /repo itself
 cd /verif && timeout 3600 bin/check $P --tier $TIER "$@" > /tmp/mut/$P.check.$TIER.log 2>&1; RC=$?
 git -C /repo checkout -- . 
 echo "exit=$RC"; grep -h "VIOLATION\|violation in\|INCONCLUSIVE\|KNOWN-FINDING\|tier=" /tmp/mut/$P.check.$TIER.log | cut -c1-420
